@@ -8,10 +8,21 @@ Decides (from the syntax trees of batch/batch/batch_format_version.py and batch/
       [namespace, name], machine spec [machine_type, preemptible, storage_gib]: writer position i <- key k  iff  reader key k <- position i
   R3  no field is lost for any version: a reader may answer a constant (None) without looking at the stored form only if the
       writer has no such field to store for that version
-  R4  region bit set: the writer ORs `1 << s(idx)` and the reader tests `(bits >> s'(idx)) & 1` with the same linear shift s = s'
-      of the same mapping value, the writer asserts a bound that keeps the highest bit <= 62 (signed BIGINT) and the lowest >= 0 for
-      region ids >= 1, the reader returns the mapping *keys* whose bit is set
-Does not decide: value coercions (int(bool)/bool(int)) beyond their positions; `[]` vs `None` for an empty secrets list.
+  R4  region bit set: the writer is a homomorphism from SETS of regions: it combines `1 << s(idx)` terms with an idempotent operator (bitwise or; loop, `sum`,
+      `functools.reduce` forms are all read), or with + / ^ only when the terms are provably pairwise distinct (the iterated collection is a set / deduplicated: decided
+      from the def-use chain of the iterable; the plain `regions` list of the validator may repeat a name); the reader tests `(bits >> s'(idx)) & 1` for EVERY known
+      region (no early exit) with the same linear shift s = s' of the same mapping value; the writer asserts a bound that keeps the highest bit <= 62 (signed BIGINT)
+      and the lowest >= 0 for region ids >= 1; the reader returns the mapping *keys* whose bit is set.  A reader that enumerates bit positions and looks the region up in
+      a dense sequence of names (rank, not id) with an index computed from the position alone is reported: it inverts the writer only when the ids are exactly 1..n
+  R5  presence, not truthiness: every place where the writer or a reader consults the TRUTHINESS of a value (if / and / or / not / all() / any() / comprehension filter /
+      conditional expression) is classified by what the value may be (flow-insensitive value descriptors: spec field paths, records built here, stored positions mapped
+      back through the writer); a field whose domain contains a legitimate falsy value (bool_type, int_type, a required str_type; domains are read off job_validator
+      in front_end/validate.py, hailtop.utils.validate and, for keys added after validation, the constants front_end.py stores) must not be truth-tested, and an absent
+      field must not be replaced by a truthy default (`x or D`).  Optional str/list/dict fields: empty is read as absent (the front end does the same)
+Helper methods of the class called from the writer / a reader are inlined first (engines/inline.py).  The has-files flags `len(k) OP c` are compared with `len(k) > 0` as sets of
+list lengths (interval normal form).
+Does not decide: value coercions (int(bool)/bool(int)) beyond their positions; `[]` vs `None` for an empty secrets list; decoders that enumerate bit positions with an
+inverse (id -> name) dictionary are declined.
 """
 from __future__ import annotations
 
@@ -26,9 +37,13 @@ META = dict(
     category='other',
     text='Writer/reader table agreement decided by abstractly executing db_spec and every get_spec_* reader for each format version 1..current '
          '(version guards evaluated, data-dependent tests enumerated) and comparing position <-> field tables, inner record key <-> index tables in '
-         'both directions, and the linear forms of the region bit shifts. Level `other`: value coercions and JSON encoding are outside the tables.',
-    note='Trusted: CPython ast; engines/absdom.walk_block. Assumes region ids are >= 1 (AUTO_INCREMENT) and regions_bits_rep is a signed BIGINT.',
-    technique='static analysis: writer/reader table agreement + truth table over version guards + linear normal form of shift amounts',
+         'both directions, the linear forms of the region bit shifts, the algebra of the bit accumulation (idempotent operator or provably distinct terms) '
+         'and a dataflow classification of every truthiness test against the value domains of the job validator (presence vs truthiness). '
+         'Level `other`: value coercions and JSON encoding are outside the tables.',
+    note='Trusted: CPython ast; engines/absdom.walk_block; engines/inline.py. Assumes region ids are distinct integers >= 1 (AUTO_INCREMENT primary key, gaps allowed) and '
+         'regions_bits_rep is a signed BIGINT; an empty optional str/list/dict field of the job spec is the same spec as an absent one.',
+    technique='static analysis: writer/reader table agreement + truth table over version guards + linear normal form of shift amounts + def-use of the accumulated collection '
+              '+ value-descriptor dataflow of truthiness tests against validator-derived domains',
     design_ref='DESIGN.md §3 C15',
 )
 
@@ -83,7 +98,7 @@ def _spec_get_key(e: ast.AST, spec: str) -> Optional[str]:
 
 
 _FLAG_REPORTED: set = set()
-_FLAG_WRONG: Dict[int, Tuple[str, int]] = {}  # id(compare) -> (key, a list length at which the flag is not `len > 0`)
+_FLAG_WRONG: Dict[int, Tuple[str, str]] = {}  # id(compare) -> (key, why the set {n : n OP c} is not [1, oo))
 
 
 def _has_flag_key(e: ast.AST, spec: str) -> Optional[str]:
@@ -100,13 +115,24 @@ def _has_flag_key(e: ast.AST, spec: str) -> Optional[str]:
     if isinstance(e, ast.Compare) and len(e.ops) == 1 and isinstance(e.comparators[0], ast.Constant) \
             and isinstance(e.left, ast.Call) and pf.dotted(e.left.func) == 'len' and len(e.left.args) == 1:
         op, c = e.ops[0], e.comparators[0].value
-        fn = {ast.Gt: lambda n: n > c, ast.GtE: lambda n: n >= c, ast.NotEq: lambda n: n != c, ast.Lt: lambda n: n < c, ast.LtE: lambda n: n <= c, ast.Eq: lambda n: n == c}.get(type(op))
-        if fn is None or not isinstance(c, int):
+        if not isinstance(c, int) or isinstance(c, bool):
             return None
-        wrong = [n for n in range(0, 4) if bool(fn(n)) != (n > 0)]
+        # normal form of {n >= 0 : n OP c} as (least member, is it upward closed); the flag must be the set [1, oo)
         k = _spec_get_key(e.left.args[0], spec)
-        if wrong and k is not None:
-            _FLAG_WRONG[id(e)] = (k, wrong[0])
+        if k is None:
+            return None
+        up = {ast.Gt: c + 1, ast.GtE: c}.get(type(op))          # [up, oo)
+        if up is not None:
+            lo = max(up, 0)
+            if lo != 1:
+                _FLAG_WRONG[id(e)] = (k, f'it holds from {lo} entries on' + (': a job with exactly one entry has flag 0' if lo > 1 else ': a job with no entry has flag 1'))
+        elif isinstance(op, ast.NotEq):
+            if c != 0:
+                _FLAG_WRONG[id(e)] = (k, f'it is false exactly for {c} entries, not for 0' if c > 0 else 'it is always true')
+        elif isinstance(op, (ast.Lt, ast.LtE, ast.Eq)):
+            _FLAG_WRONG[id(e)] = (k, 'it is bounded above: a job with many entries has flag 0')
+        else:
+            return None
         return k
     if coerced:
         # truthiness of the (optional) list itself
@@ -120,9 +146,9 @@ def _report_flag(ctx: Ctx, e: ast.AST, k: str, fname: str, what: str) -> None:
     for x in ast.walk(e):
         if id(x) in _FLAG_WRONG and id(x) not in _FLAG_REPORTED:
             _FLAG_REPORTED.add(id(x))
-            n_ = _FLAG_WRONG[id(x)][1]
-            ctx.bad('R1', f'{F}::{CLS}.{fname}::has:{k} flag', f'the {what} flag `{short(pf.nsrc(e), 60)}` is not `len({k}) > 0`: for a job with {n_} {k} entr{"y" if n_ == 1 else "ies"} it is '
-                    f'{not n_ > 0}, so the {k} flag read back differs from the submitted spec', pf.load(F).path, getattr(e, 'lineno', 0))
+            why = _FLAG_WRONG[id(x)][1]
+            ctx.bad('R1', f'{F}::{CLS}.{fname}::has:{k} flag', f'the {what} flag `{short(pf.nsrc(e), 60)}` is not `len({k}) > 0` ({why}), so the {k} flag read back differs from the submitted spec',
+                    pf.load(F).path, getattr(e, 'lineno', 0))
 
 
 class Path:
@@ -769,7 +795,10 @@ def _decoder(ctx: Ctx, m: pf.Module, aw: int, bw: int, sh: ast.BinOp) -> None:
     ctx.need(len(loops) == 1, 'regions_bits_rep_to_regions: loop not found')
     lp = loops[0]
     cons_r = f'{FU}::regions_bits_rep_to_regions'
-    if not (isinstance(lp, ast.For) and pf.nsrc(lp.iter) == f'{rp[1]}.items()'):
+    it_base = lp.iter if isinstance(lp, ast.For) else None
+    while isinstance(it_base, ast.Call) and pf.dotted(it_base.func) in _ORDER_CALLS and len(it_base.args) == 1:  # sorted(m.items()) visits the same pairs
+        it_base = it_base.args[0]
+    if not (isinstance(lp, ast.For) and it_base is not None and pf.nsrc(it_base) == f'{rp[1]}.items()'):
         _decoder_by_position(ctx, m, r, rp, lp, aw, bw, sh)
         return
     it = pf.nsrc(lp.iter)
@@ -850,6 +879,7 @@ def _decoder_by_position(ctx: Ctx, m: pf.Module, r: pf.FuncDef, rp: List[str], l
 # Value descriptors (what a sub-expression of the writer / a reader may evaluate to):
 #   ('spec',)  the job spec            ('f', *path)  a field of the job spec, e.g. ('f', 'resources', 'preemptible'), ('f', 'secrets', '[]', 'mount_in_copy')
 #   ('L', (set, set, ...))  a list built here, by position        ('L*', set)  a list built by a comprehension        ('D',) a dict built here
+#   ('Dv', set)  a dict built by a comprehension, with its values
 #   ('c', repr)  a constant            ('b',)  a computed boolean / number            ('?',)  unknown
 
 Desc = Tuple
@@ -939,6 +969,10 @@ class _Vals:
                 return frozenset(out)
             if isinstance(f, ast.Name) and f.id in ('len', 'isinstance', 'all', 'any'):
                 return frozenset({('b',)})
+            if isinstance(f, ast.Attribute) and f.attr == 'values' and not e.args:
+                base = self.ev(f.value, env)
+                if base and all(d[0] == 'Dv' for d in base):
+                    return frozenset({('L*', frozenset().union(*[d[1] for d in base]))})
             return frozenset({('?',)})
         if isinstance(e, ast.Subscript):
             base = self.ev(e.value, env)
@@ -966,6 +1000,12 @@ class _Vals:
             return frozenset({('L', tuple(self.ev(x, env) for x in e.elts))})
         if isinstance(e, ast.Dict):
             return frozenset({('D',)})
+        if isinstance(e, ast.DictComp):
+            env2 = dict(env)
+            for g in e.generators:
+                if isinstance(g.target, ast.Name):
+                    env2[g.target.id] = frozenset(self.elems(self.ev(g.iter, env2)))
+            return frozenset({('Dv', self.ev(e.value, env2))})
         if isinstance(e, (ast.ListComp, ast.GeneratorExp, ast.SetComp)):
             env2 = dict(env)
             for g in e.generators:
@@ -1040,6 +1080,7 @@ def _truth_tests(fn: pf.FuncDef, V: _Vals) -> List[Tuple[ast.AST, frozenset, str
     non-final operands of and/or.  Value-preserving coercions are not tests: `1 if x else 0`, `x or <falsy constant>`."""
     out: List[Tuple[ast.AST, frozenset, str, int]] = []
     tested: set = set()
+    leaves: set = set()
 
     def add(e: ast.AST, env: Dict[str, frozenset]) -> None:
         if id(e) in tested:
@@ -1048,7 +1089,9 @@ def _truth_tests(fn: pf.FuncDef, V: _Vals) -> List[Tuple[ast.AST, frozenset, str
         acc: List[Tuple[ast.AST, frozenset, str]] = []
         _truth_leaves(e, env, V, acc)
         for x, ds, how in acc:
-            out.append((x, ds, how, getattr(x, 'lineno', getattr(e, 'lineno', 0))))
+            if id(x) not in leaves:
+                leaves.add(id(x))
+                out.append((x, ds, how, getattr(x, 'lineno', getattr(e, 'lineno', 0))))
 
     def comp_env(node: ast.AST, env: Dict[str, frozenset]) -> Dict[str, frozenset]:
         env2 = dict(env)
@@ -1087,7 +1130,7 @@ def _truth_tests(fn: pf.FuncDef, V: _Vals) -> List[Tuple[ast.AST, frozenset, str
 
 def _field_verdict(schema: 'cf.Schema', d: Desc) -> Tuple[str, str]:
     """('flag', why) | ('ok', why) | ('unknown', why) for testing the truthiness of a value described by d."""
-    if d[0] in ('c', 'b', 'spec', 'D', 'presence'):
+    if d[0] in ('c', 'b', 'spec', 'D', 'Dv', 'presence'):
         return 'ok', d[0]
     if d[0] == 'L':
         return 'ok', 'non-empty list literal' if d[1] else 'empty list'
@@ -1110,7 +1153,7 @@ def _field_verdict(schema: 'cf.Schema', d: Desc) -> Tuple[str, str]:
     return 'flag', f'`{name}` ({sc.origin}) can legitimately be {sc.falsy}'
 
 
-def _check_truthiness(ctx: Ctx, m: pf.Module, current: int) -> None:
+def _check_truthiness(ctx: Ctx, m: pf.Module, current: int) -> List[str]:
     """R5: in the writer and the readers, a value whose domain contains a legitimate falsy value (False, 0, '' of a required string) must be tested for
     PRESENCE (`is not None`, `in`), never for truthiness, and an absent field must not be replaced by a truthy default."""
     schema = cf.job_schema()
@@ -1166,8 +1209,7 @@ def _check_truthiness(ctx: Ctx, m: pf.Module, current: int) -> None:
                         fields = sorted('.'.join(d[1:]).replace('.[]', '[]') for d in live)
                         ctx.bad('R5', f'{F}::{CLS}.{fname}::default `{short(pf.nsrc(b), 60)}`', f'`{short(pf.nsrc(b), 60)}` substitutes the truthy default `{pf.nsrc(b.values[-1])}` when '
                                 f'{fields[0]} is absent (or falsy): a job submitted without it is read back WITH that value', m.path, b.lineno)
-    if undecided:
-        raise AnalysisError(undecided[0])
+    return undecided
 
 
 def spec_related(fn: pf.FuncDef, V: _Vals, e: ast.AST) -> bool:
@@ -1184,7 +1226,8 @@ def run(ctx: Ctx) -> None:
                    'is truth-tested in the writer or a reader, and no absent field is replaced by a truthy default', 6)
     ctx.rule('R4', 'region bit set: same linear shift in writer and reader, idempotent accumulation (or: provably distinct terms), bits within [0,62], one-bit mask, '
                    'names returned under the test, every known region tested', 8)
-    ctx.assume('region ids are >= 1 (AUTO_INCREMENT) and the column is a signed BIGINT')
+    ctx.assume('region ids are distinct integers >= 1 (AUTO_INCREMENT, gaps allowed) and the column is a signed BIGINT')
+    ctx.assume('an optional str/list/dict field of the job spec that is empty denotes the same spec as an absent one (front_end normalises `not secrets` to [])')
     ctx.assume('batches keep the format version they were created with; updates of a batch use that stored version (front_end._create_jobs)')
     m = pf.load(F)
     ctx.unit('files', 2)
@@ -1210,6 +1253,8 @@ def run(ctx: Ctx) -> None:
     if n_inl:
         ctx.unit('helpers_inlined', n_inl)
     _check_positions(ctx, m, current)
-    _check_truthiness(ctx, m, current)
+    undecided = _check_truthiness(ctx, m, current)
     _check_records(ctx, m, current)
     _check_regions(ctx)
+    if undecided:  # truth tests whose value could not be classified: declined, after everything that could be decided was reported
+        raise AnalysisError(undecided[0])
